@@ -65,7 +65,7 @@ class Array:
         for i in range(self.n):
             r += self.elem.leaves('%s[%d]' % (path, i), off + i * self.elem.size)
         return r
-    def records(self): return self.elem.records()
+    def records(self): return self.elem.records() + ([self.elem] if isinstance(self.elem, Record) else [])
 
 
 class Member:
@@ -275,7 +275,8 @@ class TypeGen:
             is_struct = r.random() < 0.75
             nm = r.choice([1, 1, 2, 2, 3, 3, 4, 5, 6]) if is_struct else r.choice([1, 2, 2, 3])
             with_bf = r.random() < self.p_bf or force == 'bitfield'
-            packed = force == 'packed' or (self.p_special and not with_bf and r.random() < self.p_special)
+            # cproc supports packed on tagged structs only (no bit-fields inside)
+            packed = is_struct and not anonymous and (force == 'packed' or (self.p_special and not with_bf and r.random() < self.p_special))
             members = []
             for i in range(nm):
                 if with_bf and r.random() < 0.55:
@@ -469,8 +470,8 @@ def value_for(s, width, n):
         return '(void *)%d' % (4096 + 16 * n)
     bits = width if width is not None else s.size * 8
     signed = k in SIGNED or k == 'char'      # plain char: keep the value in 0..127 so that both signednesses agree
-    if k == 'char':
-        return '%d' % (1 + n * 5 % 120)
+    if k == 'char':       # plain char (also as a bit-field) is signed on x86-64, unsigned elsewhere: stay in the common range
+        return '%d' % ((1 + n * 5 % 120) % (1 << (bits - 1)) if bits > 1 else 0)
     if k in ('eu', 'es', 'el'):
         hi = min(bits, 31) - 1
         return '(%s)%d' % (s.c, (n * 11 + 3) % (1 << max(hi, 1)) if bits > 1 else n & 1)
